@@ -2,7 +2,7 @@
    The extracted OCaml driver and the in-Coq replays both call only this. *)
 From Coq Require Import List ZArith NArith Bool.
 From AG Require Import Base.Val Base.Sort Str.MetaVar Str.AnB Str.Substring
-  Rewrite.Indent Rewrite.Template Tree.Tree Tree.Wf Match.MatchNode Match.Prefilter Rule.Rule Rule.Kinds Rule.Traversal Rule.Scan Rule.Eval Rule.Sem Rewrite.Splice Rewrite.EditDoc Front.JsonPrint.
+  Rewrite.Indent Rewrite.Template Tree.Tree Tree.Wf Match.MatchNode Match.Prefilter Rule.Rule Rule.Kinds Rule.Traversal Rule.Scan Rule.Eval Rule.Sem Rewrite.Splice Rewrite.EditDoc Front.JsonPrint Front.Lsp.
 Import ListNotations.
 Local Open Scope Z_scope.
 
@@ -244,6 +244,17 @@ Definition run_case (fid : Z) (v : val) : val :=
                   pt (ie_start_pos ie); pt (ie_old_end_pos ie); pt (ie_new_end_pos ie)]
           | Panic => VL [VZ 1]
           end
+  (* 46: ((kind uri version text) ...) -> per uri 0,1: (version text) last published if the document is open, else () *)
+  | 46 => let hist := gList (fun n => match gZ (gNth 0 n) with
+                                      | 0%Z => NOpen (gN (gNth 1 n)) (gZ (gNth 2 n)) (gN (gNth 3 n))
+                                      | 1%Z => NChange (gN (gNth 1 n)) (gZ (gNth 2 n)) (gN (gNth 3 n))
+                                      | _ => NClose (gN (gNth 1 n))
+                                      end) (gNth 0 v) in
+          let s := lsp_run hist in
+          VL (map (fun u => match aget u (ls_docs s), aget u (ls_pub s) with
+                            | Some _, Some (pv, pt) => VL [VZ pv; vN pt]
+                            | _, _ => VL []
+                            end) [0%N; 1%N])
   (* 42: (style ((doc ..) ..)) -> bytes written by the JSON printer *)
   | 42 => VS (run_printer (match gZ (gNth 0 v) with 0%Z => Pretty | 1%Z => Stream | _ => Compact end)
                           (gList (gList gS) (gNth 1 v)))
